@@ -107,6 +107,10 @@ def make_case(rc):
                     fail = 'the module generated for %s cannot be loaded (SyntaxError): the text argument left its quotes' % (cells['A1'],)
                 elif 'title' in rc:
                     fail = 'the module generated for a workbook whose sheet title is %r cannot be loaded (SyntaxError): the title left its quotes' % (title,)
+                else:
+                    # a text of the workbook is emitted inside quotes; if the module no longer parses, the text ended its literal early and
+                    # the rest of it was read as code (that this code is ill-formed is luck, not protection)
+                    fail = 'the module generated for the %s text %r cannot be loaded (SyntaxError): the text left its quotes' % (kind, text)
 
             if tree is not None:
                 if 'zzcanary' in idents(tree):
